@@ -117,3 +117,23 @@ def replay_vs(obj):
     exe = build_harness(obj["harness"])
     bad, obs = replay_schedule(exe, obj["scenario"], obj["schedule"], obj["bound"], obj.get("dpoints", 1), obj.get("horizon", 20000), obj.get("conflicts", ()))
     return bad, obs
+
+
+def run_plan(rep, harness, plan, deadline=None, group_of=None):
+    """plan: list of (group_name, bound, budget, stride). Groups are derived from scenario descriptions by group_of
+    (default: second word)."""
+    exe = build_harness(harness)
+    sc = list_scenarios(exe)
+    g = {}
+    for i, d in sc:
+        k = group_of(d) if group_of else d.split()[1]
+        g.setdefault(k, []).append(i)
+    for name, bound, budget, stride in plan:
+        if deadline is not None and deadline.expired():
+            rep.capped("deadline before %s/%s" % (harness, name))
+            continue
+        if name not in g:
+            rep.error("harness %s has no scenario group %s (groups: %s)" % (harness, name, sorted(g)))
+            continue
+        explore_all(rep, harness, g[name][::stride], bound=bound, budget_per_scenario=budget, deadline=deadline)
+        rep.cov.setdefault("plan", []).append({"harness": harness, "group": name, "scenarios": len(g[name][::stride]), "of": len(g[name]), "bound": bound})
